@@ -102,6 +102,9 @@ var stockFiles = map[string]fileSpec{
 	"/u/big.fasta":   {Parts: []string{"NC_001422.fasta", "NC_001422.fasta", "NC_001422.fasta", "NC_001422.fasta", "NC_001422.fasta", "NC_001422.fasta", "NC_001422.fasta", "NC_001422.fasta", "NC_001422.fasta", "NC_001422.fasta", "NC_001422.fasta", "NC_001422.fasta", "NC_001422.fasta"}},
 	"/u/guest.fasta": {Text: ">guest\nGATTACAGATTACA\n"},
 	"/u/guest.gb":    {Parts: []string{"NC_001422_part.gb"}},
+	"/u/guest2.gb":   {Parts: []string{"NC_001422_part.gb", "NC_001422_part.gb"}},
+	"/u/query.fasta": {Text: ">q1\nGAGTTTTATC\n>q2\nTTTTTT\n"},
+	"/u/huge.fasta":  {Parts: []string{"NC_001422.fasta"}, Repeat: 2100},
 	"/u/feat.tbl": {Text: "     misc_feature    10..50\n                     /note=\"annotated by the simulator\"\n" +
 		"     gene            complement(60..120)\n                     /gene=\"sim\"\n"},
 	"/u/feat2.tbl": {Text: "     misc_feature    1..9\n                     /note=\"other table\"\n"},
@@ -118,13 +121,13 @@ var pickLists = []string{"1", "2-3", "1,3", "-2", "2-", "1-", "2", "5"}
 var locations = []string{"1..10", "complement(5..20)", "join(1..3,7..9)", "15", "<1..>30", "bogus("}
 var keys = []string{"misc_feature", "gene", "CDS", "promoter"}
 var quals = []string{"note=hello", "gene=x", "note=a b c", "pseudo", "product=some protein"}
-var queries = []string{"@ATGC", "@GATTACA", "@TTTT", "@GAGTTTTATCGCTTCC", "@ACGN", "/u/guest.fasta", "@RRYY"}
+var queries = []string{"@ATGC", "@GATTACA", "@TTTT", "@GAGTTTTATCGCTTCC", "@ACGN", "/u/guest.fasta", "@RRYY", "/u/query.fasta"}
 var formats = []string{"fasta", "genbank", "gb", "fasta", "genbank", "bogus"}
 
 // posPools names, per command, the pool each positional argument is drawn
 // from; optPools the pool of each valued option. They let a history change
 // exactly one argument between two invocations.
-var guestPool = []string{"@ACGT", "@GGGGCCCC", "@ACGA", "@TTTT", "/u/guest.fasta", "/u/guest.gb", "/u/guest.fasta"}
+var guestPool = []string{"@ACGT", "@GGGGCCCC", "@ACGA", "@TTTT", "/u/guest.fasta", "/u/guest.gb", "/u/guest.gb", "/u/guest2.gb"}
 var hostPool = []string{"/u/part.gb", "/u/pbat.gb", "/u/two.gb", "/u/part.fasta"}
 var tablePool = []string{"/u/feat.tbl", "/u/feat.tbl", "/u/feat2.tbl"}
 var posPools = map[string][][]string{
@@ -158,7 +161,9 @@ var cachedCommands = []string{"annotate", "clear", "complement", "define", "dele
 	"query", "repair", "reverse", "rotate", "search", "select", "sort", "split", "summary"}
 
 var cmdGens = map[string]cmdGen{
-	"annotate":   func(r *core.RNG, iv *invocation) { iv.Pos = []string{pickS(r, []string{"/u/feat.tbl", "/u/feat.tbl", "/u/feat2.tbl"})} },
+	"annotate": func(r *core.RNG, iv *invocation) {
+		iv.Pos = []string{pickS(r, []string{"/u/feat.tbl", "/u/feat.tbl", "/u/feat2.tbl"})}
+	},
 	"clear":      func(r *core.RNG, iv *invocation) {},
 	"complement": func(r *core.RNG, iv *invocation) {},
 	"define": func(r *core.RNG, iv *invocation) {
@@ -221,7 +226,11 @@ var cmdGens = map[string]cmdGen{
 			iv.Opts = append(iv.Opts, []string{"-k", pickS(r, keys)})
 		}
 		if r.Chance(1, 3) {
-			iv.Opts = append(iv.Opts, []string{"-q", pickS(r, quals)})
+			o := []string{"-q", pickS(r, quals)}
+			if r.Chance(1, 2) {
+				o = append(o, pickS(r, quals))
+			}
+			iv.Opts = append(iv.Opts, o)
 		}
 		sw(r, iv, 1, 3, "-e")
 		sw(r, iv, 1, 3, "--no-complement")
@@ -250,6 +259,10 @@ var tableOut = map[string]bool{"query": true, "summary": true}
 func genInvocation(r *core.RNG, cmd string) invocation {
 	if cmd == "" {
 		cmd = cachedCommands[r.Intn(len(cachedCommands))]
+		if r.Chance(1, 6) {
+			// commands that read a second file get extra turns: their keys have more to get wrong
+			cmd = pickS(r, []string{"insert", "infix", "search", "annotate"})
+		}
 	}
 	iv := invocation{Cmd: cmd}
 	cmdGens[cmd](r, &iv)
@@ -308,6 +321,15 @@ func mutateOne(r *core.RNG, a invocation) (invocation, string) {
 		if (a.Cmd == "extract" || a.Cmd == "select") && len(v.Pos) > 0 {
 			kinds = append(kinds, "extra")
 		}
+		for _, o := range v.Opts {
+			if len(o) > 2 {
+				kinds = append(kinds, "permute")
+				break
+			}
+		}
+		if (a.Cmd == "extract" || a.Cmd == "select") && len(v.Pos) > 1 {
+			kinds = append(kinds, "permute-pos")
+		}
 		switch pickS(r, kinds) {
 		case "pos":
 			pools := posPools[a.Cmd]
@@ -327,6 +349,18 @@ func mutateOne(r *core.RNG, a invocation) (invocation, string) {
 			if nv != v.Pos[i] {
 				v.Pos[i] = nv
 				return v, "one-positional"
+			}
+		case "permute": // the same values of a repeatable option in another order
+			for i, o := range v.Opts {
+				if len(o) > 2 && o[1] != o[len(o)-1] {
+					v.Opts[i][1], v.Opts[i][len(o)-1] = o[len(o)-1], o[1]
+					return v, "permute-option-values"
+				}
+			}
+		case "permute-pos":
+			if v.Pos[0] != v.Pos[len(v.Pos)-1] {
+				v.Pos[0], v.Pos[len(v.Pos)-1] = v.Pos[len(v.Pos)-1], v.Pos[0]
+				return v, "permute-positionals"
 			}
 		case "optval":
 			for i, o := range v.Opts {
@@ -490,7 +524,24 @@ func inputEdit(r *core.RNG, file string) editSpec {
 	if strings.HasSuffix(file, ".tbl") {
 		return editSpec{Op: "replace", Old: "simulator", Text: "user"}
 	}
-	switch r.Intn(7) {
+	if strings.HasSuffix(file, ".gb") && r.Chance(1, 3) {
+		// annotation only: residues, lengths and record boundaries stay as they are
+		return []editSpec{
+			{Op: "replace", Old: "/product=\"", Text: "/product=\"edited "},
+			{Op: "replace", Old: "     CDS  ", Text: "     gene "},
+			{Op: "replace", Old: "/gene=\"", Text: "/gene=\"x"},
+			{Op: "replace", Old: "DEFINITION  ", Text: "DEFINITION  edited "},
+		}[r.Intn(4)]
+	}
+	if strings.HasSuffix(file, ".fasta") && r.Chance(1, 4) {
+		// the same residues split differently into records
+		return editSpec{Op: "replace", At: 60, Old: "\n", Text: "\n>split here\n"}
+	}
+	switch r.Intn(9) {
+	case 7: // annotation only: a qualifier value changes, residues and record boundaries do not
+		return editSpec{Op: "replace", Old: "/product=\"", Text: "/product=\"edited "}
+	case 8: // annotation only: a feature key changes
+		return editSpec{Op: "replace", Old: "     CDS  ", Text: "     gene "}
 	case 4, 5, 6: // change one residue in the last lines of the file, length unchanged
 		return editSpec{Op: "mutate-tail", At: r.Intn(200)}
 	case 0: // change one residue near the start
@@ -534,6 +585,17 @@ func genHistory(r *core.RNG, tier string) *cliScenario {
 	}
 	n := r.Range(1, maxLen)
 	anchor := genInvocation(r, "")
+	if tier == "thorough" && r.Chance(1, 600) {
+		// an output of more than 10 MB: limits tied to a size show only here
+		anchor = invocation{Cmd: pickS(r, []string{"reverse", "complement", "clear"}), Input: "/u/huge.fasta", Piped: r.Chance(1, 2)}
+		sc.Env = cliEnv{Cache: "ok", Tmp: "ok"}
+		sc.Steps = nil
+		st := anchor.step(r)
+		st.Chunks = nil
+		addFiles(sc, st)
+		sc.Steps = append(sc.Steps, cliStep{Run: st}, cliStep{Run: st})
+		return sc
+	}
 	cur := anchor
 	add := func(rs *runStep) {
 		addFiles(sc, rs)
@@ -543,6 +605,16 @@ func genHistory(r *core.RNG, tier string) *cliScenario {
 		// pair shape: a run that succeeds, then the same run with exactly one argument changed
 		anchor.Input = pickS(r, goodInputs)
 		add(anchor.step(r))
+		if sec := secondaryOf(anchor); r.Chance(1, 6) || (sec != "" && r.Chance(1, 3)) {
+			// the same run after the user changed one file: the primary input, or the guest / host / query / table
+			f := anchor.Input
+			if sec != "" && r.Chance(2, 3) {
+				f = sec
+			}
+			sc.Steps = append(sc.Steps, cliStep{Edit: &editStep{File: f, Edit: inputEdit(r, f)}})
+			add(anchor.step(r))
+			return sc
+		}
 		v, _ := mutateOne(r, anchor)
 		add(v.step(r))
 		switch r.Intn(4) {
@@ -839,7 +911,30 @@ func c13CliRun(tier string, seed uint64, r *core.RNG) *core.Result {
 	run1 := &runStep{Argv: first.Argv, Stdin: first.Stdin, Chunks: first.Chunks}
 	var disk *diskStep
 	var edit *editStep
-	switch r.Pick([]int{30, 10, 60, 25}) {
+	switch r.Pick([]int{30, 10, 60, 25, 30}) {
+	case 4: // an I/O error on a write, create or close of the cache file while X runs
+		var cand []int
+		for i, o := range tr {
+			if o.Class == "cache" && (o.Kind == "write" || o.Kind == "create" || o.Kind == "close") {
+				cand = append(cand, i)
+			}
+		}
+		at := cand[r.Intn(len(cand))]
+		if r.Chance(1, 3) {
+			at = cand[0+r.Intn(minInt(2, len(cand)))] // the create and the placeholder header
+		} else if r.Chance(1, 3) {
+			at = cand[len(cand)-1-r.Intn(minInt(3, len(cand)))] // the final flush, the header, the close
+		}
+		torn := 0
+		if tr[at].Kind == "write" && tr[at].Len > 0 {
+			torn = r.Intn(tr[at].Len)
+		}
+		run1.Faults = []simos.Fault{{AtOp: at, Kind: pickS(r, []string{"eio", "enospc", "eacces"}), Torn: torn}}
+		if r.Chance(1, 3) {
+			// ... and the process dies a little later
+			later := at + 1 + r.Intn(8)
+			run1.Faults = append(run1.Faults, simos.Fault{AtOp: later, Kind: "kill"})
+		}
 	case 3: // no damage at all: the entry X made is intact, but the second run has another input
 		edit = &editStep{File: iv.Input, Edit: inputEdit(r, iv.Input)}
 		if r.Chance(1, 3) {
